@@ -77,9 +77,14 @@ structure CompObs where
   roundTrip : Bool
 deriving DecidableEq, Repr
 
-/-- the first block (position) on which the observed compressor was *not* history independent, a copy differed from
-the original, a call failed, or the codec contract (`CodecOk`) was broken -/
+/-- the first block (position) on which the observed compressor was *not* history independent or a copy differed from
+the original -/
 def obsIndependent (obs : List CompObs) : Option Nat :=
-  obs.findIdx? (fun o => !(o.hist == o.fresh && o.copy == o.fresh && decide (0 ≤ o.hist.1) && o.roundTrip))
+  obs.findIdx? (fun o => !(o.hist == o.fresh && o.copy == o.fresh))
+
+/-- the first block on which a call failed or the codec contract of the theorems (`CodecOk`: the compressed block is
+shorter and uncompresses to the input) was broken -/
+def obsContract (obs : List CompObs) : Option Nat :=
+  obs.findIdx? (fun o => !(decide (0 ≤ o.hist.1) && o.roundTrip))
 
 end Sqfs.BlockProc
